@@ -292,7 +292,8 @@ func (pk *PrivateKey) parsePrivateKey(data []byte) (err error) {
 	case PubKeyAlgoEdDSA:
 		return pk.parseEdDSAPrivateKey(data)
 	}
-	panic("impossible")
+	// e.g. ECDH: the secret material of encryption-only subkeys is not needed to describe the key
+	return errors.UnsupportedError("private key type: " + strconv.Itoa(int(pk.PublicKey.PubKeyAlgo)))
 }
 
 func (pk *PrivateKey) parseRSAPrivateKey(data []byte) (err error) {
